@@ -94,6 +94,24 @@ class Balance(Flow):
                 self._try_of_handler[h] = st
         return self._run_stmt2(st, states)
 
+    def with_enter(self, node, state):
+        out = list(Flow.with_enter(self, node, state))
+        for it in node.items:
+            c = it.context_expr
+            if isinstance(c, ast.Call) and unparse(c.func).split(".")[-1] in _STACK_CMS:
+                out = [(d + 1, sn) for d, sn in out]
+                self.pushes += 1
+        return out
+
+    def with_exit(self, node, state):
+        d, sn = state
+        for it in node.items:
+            c = it.context_expr
+            if isinstance(c, ast.Call) and unparse(c.func).split(".")[-1] in _STACK_CMS:
+                d = d - 1
+                self.pops += 1
+        return [(d, sn)]
+
     def handler_entry(self, handler, state):
         st = self._try_of_handler.get(handler)
         if st is None or self.cg is None:
@@ -233,11 +251,46 @@ def _loop_label(loop: ast.AST) -> str:
     return "while {}".format(unparse(loop.test))
 
 
+_STACK_CMS: set = set()  # names of generator context managers that push on enter and pop on exit
+
+
+def _find_stack_context_managers(ctx) -> set:
+    """functions decorated with @contextmanager whose body appends to expand_stack before the yield and
+    pops it after (in a finally): `with cm(...):` is then a push at entry and a pop on every way out"""
+    out = set()
+    for dotted, m, f in ctx.index.all_functions():
+        if not any("contextmanager" in unparse(d) for d in f.decorator_list):
+            continue
+        ys = [n for n in walk_no_nested(f) if isinstance(n, ast.Expr) and isinstance(n.value, ast.Yield)]
+        if len(ys) != 1:
+            continue
+        y = ys[0]
+        pushes = [c for c in walk_no_nested(f) if isinstance(c, ast.Call) and _stack_call(c) == "append" and c.lineno < y.lineno]
+        pops = [c for c in walk_no_nested(f) if isinstance(c, ast.Call) and _stack_call(c) == "pop" and c.lineno > y.lineno]
+        in_finally = any(isinstance(t, ast.Try) and any(c in list(ast.walk(ast.Module(body=t.finalbody, type_ignores=[]))) for c in pops)
+                         for t in walk_no_nested(f))
+        if len(pushes) == 1 and len(pops) == 1 and in_finally:
+            out.add(dotted.split(".")[-1])
+    return out
+
+
+def _uses_stack_cm(fn: ast.AST) -> bool:
+    for n in walk_no_nested(fn):
+        if isinstance(n, ast.With):
+            for it in n.items:
+                c = it.context_expr
+                if isinstance(c, ast.Call) and unparse(c.func).split(".")[-1] in _STACK_CMS:
+                    return True
+    return False
+
+
 def _touches_stack(fn: ast.AST) -> bool:
+    if any("contextmanager" in unparse(d) for d in getattr(fn, "decorator_list", [])) and getattr(fn, "name", "") in _STACK_CMS:
+        return False  # summarised at its `with` sites
     for n in walk_no_nested(fn):
         if isinstance(n, ast.Call) and _stack_call(n) in ("append", "pop"):
             return True
-    return False
+    return _uses_stack_cm(fn)
 
 
 def _fmt_delta(d) -> str:
@@ -257,6 +310,9 @@ def rule_r1(ctx) -> RuleResult:
     rr = RuleResult("C16.R1", "expansion path is balanced on every return and around every loop iteration",
                     min_instances=15)
     cg = CallGraph(ctx.index)
+    _STACK_CMS.clear()
+    _STACK_CMS.update(_find_stack_context_managers(ctx))
+    rr.instances["stack_context_managers"] = sorted(_STACK_CMS)
     pushers = {dotted for dotted, m, f in ctx.index.all_functions() if _touches_stack(f)}
     push_reach = frozenset(cg.reaches(pushers))
     closure = cg.closure(["core.Wtp.expand", "core.Wtp.parse"])
